@@ -307,35 +307,73 @@ def mutate(rng, p, known_pcodes):
 
 
 # ---- structural comparison -------------------------------------------------------------------------------------------
-def canon(v):
+_KINDS = {}
+
+
+def _classify(t):
     import lazy_object_proxy
     from hippolyzer.lib.base import datatypes as dt
-    if isinstance(v, lazy_object_proxy.Proxy):
-        v = v.__wrapped__
-    if v is None:
-        return None
-    if isinstance(v, enum.Enum):
-        v = v.value
-    if isinstance(v, bool) or isinstance(v, int):
+    if issubclass(t, lazy_object_proxy.Proxy):
+        return "proxy"
+    if t is type(None):
+        return "none"
+    if issubclass(t, enum.Enum):
+        return "enum"
+    if issubclass(t, int):
+        return "int"
+    if issubclass(t, float):
+        return "float"
+    if issubclass(t, str):
+        return "str"
+    if issubclass(t, (bytes, bytearray, memoryview)):
+        return "bytes"
+    if issubclass(t, uuid.UUID):
+        return "uuid"
+    if issubclass(t, dt.TaggedUnion):
+        return "tagged"
+    if issubclass(t, dt.TupleCoord):
+        return "coord"
+    if dataclasses.is_dataclass(t):
+        return "dataclass"
+    if issubclass(t, dict):
+        return "dict"
+    if issubclass(t, (list, tuple)):
+        return "list"
+    return "other"
+
+
+def canon(v):
+    """structural normal form: enum members as their values, floats by bit pattern, lazy members forced, dataclasses by field"""
+    t = type(v)
+    k = _KINDS.get(t)
+    if k is None:
+        k = _KINDS[t] = _classify(t)
+    if k == "int":
         return int(v)
-    if isinstance(v, float):
+    if k == "none":
+        return None
+    if k == "float":
         return "f:" + struct.pack("<d", v).hex()
-    if isinstance(v, str):
+    if k == "enum":
+        return canon(v.value)
+    if k == "str":
         return "s:" + str.__str__(v)
-    if isinstance(v, (bytes, bytearray, memoryview)):
+    if k == "bytes":
         return "y:" + bytes(v).hex()
-    if isinstance(v, uuid.UUID):
+    if k == "uuid":
         return "u:" + v.hex
-    if isinstance(v, dt.TaggedUnion):
-        return ["TU", canon(v.tag), canon(v.value)]
-    if isinstance(v, dt.TupleCoord):
-        return [type(v).__name__] + [canon(x) for x in tuple(v)]
-    if dataclasses.is_dataclass(v) and not isinstance(v, type):
-        return [type(v).__name__] + [[f.name, canon(getattr(v, f.name))] for f in dataclasses.fields(v)]
-    if isinstance(v, dict):
-        return ["d"] + [[canon(k), canon(x)] for k, x in v.items()]
-    if isinstance(v, (list, tuple)):
+    if k == "dict":
+        return ["d"] + [[canon(a), canon(b)] for a, b in v.items()]
+    if k == "list":
         return ["l"] + [canon(x) for x in v]
+    if k == "dataclass":
+        return [t.__name__] + [[f.name, canon(getattr(v, f.name))] for f in dataclasses.fields(v)]
+    if k == "coord":
+        return [t.__name__] + [canon(x) for x in tuple(v)]
+    if k == "tagged":
+        return ["TU", canon(v.tag), canon(v.value)]
+    if k == "proxy":
+        return canon(v.__wrapped__)
     return "r:" + repr(v)
 
 
@@ -381,7 +419,7 @@ def bounded_fast_vs_template(reg, tier, seed):
         except Exception as e:  # noqa
             return None, f"{type(e).__name__}: {e}"
 
-    def check(data, flags, pcode, origin, sub=""):
+    def check(data, flags, pcode, origin, cls=None, reencode_fast=True):
         """all clauses for one payload; returns the template's value (or None)"""
         nonlocal evals
         evals += 1
@@ -396,25 +434,27 @@ def bounded_fast_vs_template(reg, tier, seed):
             return None
         if ferr or terr:
             who = "hand-optimised decoder" if ferr else "declarative template"
-            fail("fast-vs-template/accept" + sub, "a payload one decoder accepts is accepted by the other", inp,
+            fail(f"{cls or 'fast-vs-template'}/accept", "a payload one decoder accepts is accepted by the other", inp,
                  f"{who} raised {ferr or terr}; the other decoded it")
             return None
         if set(fc) != set(tc):
-            fail("fast-vs-template/field-set" + sub, "both decoders report the same set of fields", inp,
+            fail(f"{cls or 'fast-vs-template'}/field-set", "both decoders report the same set of fields", inp,
                  f"only fast: {sorted(set(fc) - set(tc))}; only template: {sorted(set(tc) - set(fc))}")
         diff = [k for k in tc if k in fc and fc[k] != tc[k]]
         if diff:
             k = diff[0]
-            fail("fast-vs-template/field-values" + sub, "both decoders produce equal field values", dict(inp, fields=diff),
+            fail(f"{cls or 'fast-vs-template'}/field-values", "both decoders produce equal field values", dict(inp, fields=diff),
                  f"{k}: fast={_short(fv[k])} template={_short(tv[k])}" + (f" (+{len(diff) - 1} more fields)" if len(diff) > 1 else ""))
         enc, err = encode(tv)
         if enc != data:
-            fail("template/roundtrip" + sub, "re-encoding the template's result through the template reproduces the payload", inp,
+            fail(f"{cls or 'template'}/roundtrip", "re-encoding the template's result through the template reproduces the payload", inp,
                  err or f"re-encoded to {len(enc)} bytes, payload has {len(data)}; first difference at byte "
                         f"{next((i for i, (a, b) in enumerate(zip(enc, data)) if a != b), min(len(enc), len(data)))}")
+        if not reencode_fast:
+            return tc
         enc, err = encode(fv)
         if enc != data:
-            fail("fast-vs-template/reencode" + sub, "re-encoding the hand-optimised decoder's result through the template reproduces the payload",
+            fail(f"{cls or 'fast-vs-template'}/reencode", "re-encoding the hand-optimised decoder's result through the template reproduces the payload",
                  inp, err or f"re-encoded to {len(enc)} bytes, payload has {len(data)}; first difference at byte "
                              f"{next((i for i, (a, b) in enumerate(zip(enc, data)) if a != b), min(len(enc), len(data)))}")
         return tc
@@ -498,7 +538,8 @@ def bounded_fast_vs_template(reg, tier, seed):
         draws = 1 if quick else 3
         for flags in all_flags:
             if quick:
-                kinds = (PCODE_AVATAR, PCODE_PRIMITIVE, OTHER_KNOWN[(flags + seed) % len(OTHER_KNOWN)])
+                # the kind only selects how the State byte of the fixed header is shown, independently of the sections: rotate instead of crossing
+                kinds = ((PCODE_AVATAR, PCODE_PRIMITIVE)[(flags + seed) % 2], OTHER_KNOWN[(flags // 2 + seed) % len(OTHER_KNOWN)])
             else:
                 kinds = KNOWN_PCODES
             for pcode in kinds:
@@ -523,22 +564,22 @@ def bounded_fast_vs_template(reg, tier, seed):
                 continue
             for flags in (0, rng.randrange(1 << N_FLAG_BITS), (1 << N_FLAG_BITS) - 1):
                 stats["unknown_pcode"] += 1
-                check(bytes(gen.payload(flags, b).buf), flags, b, "unknown-kind", sub="/unknown-kind")
+                check(bytes(gen.payload(flags, b).buf), flags, b, "unknown-kind", cls="unknown-kind")
         # a name-value section that is present but empty
         for flags in (F_NAMEVALUES, F_NAMEVALUES | F_TEXT | F_SOUND, (1 << N_FLAG_BITS) - 1):
             for pcode in (PCODE_PRIMITIVE, PCODE_AVATAR):
-                check(bytes(gen.payload(flags, pcode, edge="empty-namevalue").buf), flags, pcode, "empty-namevalue", sub="/empty-namevalue")
+                check(bytes(gen.payload(flags, pcode, edge="empty-namevalue").buf), flags, pcode, "empty-namevalue", cls="empty-namevalue")
     finally:
         logging.disable(prev_disable)
 
     n_flags = len({s for s in range(1 << N_FLAG_BITS)})
     return {"name": "fast-vs-template", "evaluations": evals, "distinct_nontrivial": len(seen),
             "rule": f"independent byte-level encoder of the compressed object-update format: all {n_flags} section-flag sets x "
-                    f"{'avatar, primitive and one rotating other kind' if quick else 'all 6 enumerated kinds'} x {draws} draw(s) of section contents "
+                    f"{'2 kinds (avatar/primitive alternating + one rotating other kind)' if quick else 'all 6 enumerated kinds'} x {draws} draw(s) of section contents "
                     "(boundary-biased ints/floats/ids, texts, urls, legacy and new particle blocks, 0-8 extra params, name values, texture entries "
                     "with per-face exceptions, texture animation) + 1-3 byte mutations inside regions that do not carry framing (any byte of numeric "
                     "fields, high flag bits, kind byte, text characters) + unenumerated kind bytes + empty name-value section; a sample of payloads "
                     "also goes through the message-level subfield path, the tracker's network normalisation and a cache file. "
                     "distinct = distinct payload bytes", "bounded": True,
-            "bounds": {"flag_sets": n_flags, "kinds": 3 if quick else 6, "draws": draws, "stats": stats},
+            "bounds": {"flag_sets": n_flags, "kinds_per_flag_set": 2 if quick else 6, "draws": draws, "stats": stats},
             "samples": samples, "failures": failures}
